@@ -127,4 +127,12 @@ CHECKS["C09"] = {
             "file, or as the only source without -s from any working directory.",
     "note": TRUST + "Models as in C01/C02. In the delivery harness secrets are concrete (they travel as text) and application data symbolic; the capture reader and file system are stubs (dpkt's DSB block parsing is C12's subject).",
 }
+CHECKS["C18"] = {
+    "technique": "symbolic execution with every environment choice as a solver variable: iteration order of the connection-id sets, existence of files in the working directory, and an earlier in-process run (self-composition of main.run)",
+    "text": "z3 shows that the QUIC export is the same (and correct) whatever order the connection-id sets are iterated in at each "
+            "iteration (the only hash-order dependent containers), that main.run's writer calls do not depend on which files exist "
+            "in the working directory, and that a run gives the same writer calls after another run in the same process as alone "
+            "(TLS/QUIC in all four combinations).",
+    "note": TRUST + "Sets are replaced by a class whose iteration order is solver-chosen among identity, reversal and rotations; reader/writer/file system are stubs; models as in C01/C02.",
+}
 NOT_APPLICABLE = {}
